@@ -335,6 +335,15 @@ func (m *Metadata) Validate(data map[string]any, currentVersion ...string) Valid
 			// and we need to specify the group as rules, so we make a new map
 			if arr, ok := v.([]any); ok {
 				for i, a := range arr {
+					if _, ok := a.(map[string]any); !ok {
+						// a null (or scalar) element passes the recursive check below as "an empty
+						// group" and becomes a nil *RulesBasedSamplerRule / *RulesBasedSamplerCondition
+						results = append(results, ValidationResult{
+							Message:  fmt.Sprintf("field %s[%d] must be an object, but %v is %T", k, i, a, a),
+							Severity: Error,
+						})
+						continue
+					}
 					subname := strings.Split(k, ".")[1]
 					rulesmap := map[string]any{subname: a}
 					subresults := m.Validate(rulesmap, currentVersion...)
